@@ -80,9 +80,30 @@ def strip_coq_comments(s):
 
 FORBIDDEN = re.compile(r"\b(Admitted|admit|give_up|Axiom|Axioms|Parameter|Parameters|Conjecture|Conjectures|Admit\s+Obligations|bypass_check)\b|Unset\s+Guard|Unset\s+Positivity|Unset\s+Universe\s+Checking|type-in-type|impredicative-set|Guard\s+Checking")
 
-def audit_sources():
+def coq_closure(roots):
+    """files (relative to coq/) transitively required by the given files, via their Verif imports"""
+    seen, todo = set(), list(roots)
+    while todo:
+        f = todo.pop()
+        if f in seen or not os.path.exists(os.path.join(COQ, f)):
+            continue
+        seen.add(f)
+        txt = strip_coq_comments(open(os.path.join(COQ, f), errors="replace").read())
+        for m in re.finditer(r"From\s+Verif\s+Require\s+(?:Import\s+|Export\s+)?(.*?)\.(?=\s|$)", txt, re.S):
+            for mod in m.group(1).split():
+                todo.append(mod.replace(".", "/") + ".v")
+        for m in re.finditer(r"(?<!Verif\s)Require\s+(?:Import\s+|Export\s+)?(.*?)\.(?=\s|$)", txt, re.S):
+            for mod in m.group(1).split():
+                if mod.startswith("Verif."):
+                    todo.append(mod[len("Verif."):].replace(".", "/") + ".v")
+    return seen
+
+
+def audit_sources(only=None):
     bad = []
     for f in glob.glob(os.path.join(COQ, "**", "*.v"), recursive=True):
+        if only is not None and os.path.relpath(f, COQ) not in only:
+            continue
         txt = strip_coq_comments(open(f, errors="replace").read())
         for m in FORBIDDEN.finditer(txt):
             line = txt.count("\n", 0, m.start()) + 1
@@ -223,7 +244,9 @@ def parse_assumptions(out):
 def build_coq(pid, log, jobs=16):
     """make the dependencies, then recompile Properties/<pid>.v capturing Print Assumptions."""
     res = dict(ok=False, theorems=[], assumptions={}, failed=None, audit=[], log="")
-    res["audit"] = audit_sources()
+    roots = [f"Properties/{pid}.v"] + ([PROPS[pid]["harness_v"][:-1]] if PROPS[pid]["harness_v"] else [])
+    res["deps"] = sorted(coq_closure(roots))
+    res["audit"] = audit_sources(set(res["deps"]))
     ensure_makefile()
     targets = [f"Properties/{pid}.vo"]
     hv = PROPS[pid]["harness_v"]
